@@ -218,12 +218,13 @@ struct Rewriter {
     current_let: Option<String>,
     unsupported: Vec<String>,
     interfere: bool,
+    arc_vars: std::collections::HashSet<String>, // `let x = CELL.load_full();`: x is an Arc of the content
 }
 const CELL_OPS: &[&str] = &["load", "store", "fetch_add", "fetch_sub", "swap", "compare_exchange", "compare_exchange_weak", "fetch_or", "fetch_and", "fetch_max", "fetch_min", "load_full"];
 
 impl Rewriter {
     fn new(labels_in: Option<Vec<String>>) -> Self {
-        Rewriter { labels_in, guesses: vec![], next_idx: 0, out: vec![], ctx: Ctx::default(), current_let: None, unsupported: vec![], interfere: false }
+        Rewriter { labels_in, guesses: vec![], next_idx: 0, out: vec![], ctx: Ctx::default(), current_let: None, unsupported: vec![], interfere: false, arc_vars: Default::default() }
     }
     fn is_guard(&self, name: &str) -> bool {
         for s in self.ctx.scopes.iter().rev() {
@@ -256,7 +257,7 @@ impl Rewriter {
         let mut h = Hoister { n: 0, unsupported: vec![] };
         h.block(&mut blk);
         if self.interfere {
-            let mut itf = Interferer { unsupported: vec![] };
+            let mut itf = Interferer { unsupported: vec![], conds: 0 };
             itf.visit_block_mut(&mut blk);
             h.unsupported.extend(itf.unsupported);
         }
@@ -436,6 +437,13 @@ impl VisitMut for Rewriter {
                         *s = parse_quote! { let #id = #src.write_guard(); };
                         self.bind(&name, true);
                         return;
+                    }
+                }
+                if let (Some(n), Some(init)) = (&name, &l.init) {
+                    if let Expr::MethodCall(m) = strip_parens(&init.expr) {
+                        if m.method == "load_full" && m.args.is_empty() {
+                            self.arc_vars.insert(n.clone());
+                        }
                     }
                 }
                 let saved = self.current_let.take();
@@ -726,9 +734,15 @@ impl VisitMut for Rewriter {
             }
             Expr::Unary(u) if matches!(u.op, syn::UnOp::Deref(_)) => {
                 // R4b: guards of ArcSwap loads are snapshots
-                if let Expr::MethodCall(m) = strip_parens(&u.expr) {
+                let inner = strip_parens(&u.expr).clone();
+                if let Expr::MethodCall(m) = &inner {
                     if m.method == "load" {
-                        *e = strip_parens(&u.expr).clone();
+                        *e = inner.clone();
+                    }
+                } else if let Some(n) = single_ident(&inner) {
+                    // R4b': `*x` where `let x = CELL.load_full();` (the Arc layer is dropped)
+                    if self.arc_vars.contains(&n) {
+                        *e = inner.clone();
                     }
                 }
             }
@@ -938,7 +952,7 @@ impl Hoister {
 // ---------------------------------------------------------------- profile T: interference points
 /// `interfere(h, g, c);` in front of every statement whose own evaluation (not that of its nested
 /// blocks) touches the shared heap: other threads may take any number of atomic steps there.
-struct Interferer { unsupported: Vec<String> }
+struct Interferer { unsupported: Vec<String>, conds: usize }
 /// number of shared-heap accesses in the head of a statement (not in its nested blocks); an
 /// `atomic(..)` step counts as one
 fn head_heap_accesses(e: &Expr) -> usize {
@@ -1024,8 +1038,45 @@ impl VisitMut for Interferer {
     }
     fn visit_block_mut(&mut self, b: &mut Block) {
         let mut out: Vec<Stmt> = vec![];
-        let n = b.stmts.len();
-        for (k, mut s) in std::mem::take(&mut b.stmts).into_iter().enumerate() {
+        // `A && B` / `A || B` with a shared access on both sides: two steps, the second one conditional.
+        // `if A && B {..}` -> `let __c = if A { B } else { false }; if __c {..}` (short-circuit order kept)
+        let mut queue: std::collections::VecDeque<Stmt> = std::mem::take(&mut b.stmts).into();
+        let mut stmts: Vec<Stmt> = vec![];
+        while let Some(mut s) = queue.pop_front() {
+            let cond: Option<&mut Expr> = match &mut s {
+                Stmt::Expr(Expr::If(i), _) => Some(&mut *i.cond),
+                Stmt::Local(l) => match l.init.as_mut().map(|i| &mut *i.expr) {
+                    Some(Expr::If(i)) => Some(&mut *i.cond),
+                    Some(e) => Some(e),
+                    None => None,
+                },
+                _ => None,
+            };
+            if let Some(c) = cond {
+                if head_heap_accesses(c) > 1 {
+                    let inner = strip_parens(c).clone();
+                    if let Expr::Binary(bin) = inner {
+                        let (l, r) = (&bin.left, &bin.right);
+                        let new: Option<Expr> = match bin.op {
+                            syn::BinOp::And(_) => Some(parse_quote! { if #l { #r } else { false } }),
+                            syn::BinOp::Or(_) => Some(parse_quote! { if #l { true } else { #r } }),
+                            _ => None,
+                        };
+                        if let Some(new) = new {
+                            let name = format_ident!("__c{}", self.conds);
+                            self.conds += 1;
+                            *c = parse_quote! { #name };
+                            queue.push_front(s);
+                            queue.push_front(parse_quote! { let #name = #new; });
+                            continue;
+                        }
+                    }
+                }
+            }
+            stmts.push(s);
+        }
+        let n = stmts.len();
+        for (k, mut s) in stmts.into_iter().enumerate() {
             let accesses = match &s {
                 Stmt::Local(l) => l.init.as_ref().map(|i| head_heap_accesses(&i.expr)).unwrap_or(0),
                 Stmt::Expr(e, _) => head_heap_accesses(e),
